@@ -1839,7 +1839,7 @@ hwloc__xml_import_diff(hwloc__xml_import_state_t state,
 
     ret = state->global->find_child(state, &childstate, &tag);
     if (ret < 0)
-      return -1;
+      goto error;
     if (!ret)
       break;
 
@@ -1849,13 +1849,18 @@ hwloc__xml_import_diff(hwloc__xml_import_state_t state,
       ret = -1;
 
     if (ret < 0)
-      return ret;
+      goto error;
 
     state->global->close_child(&childstate);
   }
 
   *firstdiffp = firstdiff;
   return 0;
+
+ error:
+  /* free what was imported before the invalid element */
+  hwloc_topology_diff_destroy(firstdiff);
+  return -1;
 }
 
 /***********************************
